@@ -17,8 +17,25 @@ LAYOUTS = [
 CONTENTS = [b"", b"hello", b"world", b"hello", b"x" * 100, b"\x00\x01\xfe\xff binary \n\r", b"same", b"same", "ünï".encode(), b"0123456789" * 50]
 EXT_FILES = ["a.txt", "b.txt", "c.dat", "d1/x.txt", "d1/y.txt", "d1/sub/z.txt", "d2/x.txt", "d2/deep/er/w.bin", "e"]
 NAMES = ["a.txt", "b.txt", "n.txt", "d1", "d1/x.txt", "d1/sub", "d2", "new/dir/f", "e", "z"]
+H_FILES = ['q"uote.txt', 'back\\slash.txt', 'new\nline', 'tab\there.txt', 'sp ace ', ' lead', 'ünï/日本/🙂.bin', '%25pct%', 'x' * 180,
+           'ctl\x01\x1f', 'd"q/in"ner/f\\g', "it's", 'a.txt']
+H_NAMES = ['q"uote.txt', 'dst"q', 'back\\slash.txt', 'n\nl/x', 'sp ace /y ', '🙂/😀', 'd"q', 'ctl\x02', 'plain', 'd"q/in"ner']
+H_IDS = ['ob"j', 'back\\slash', 'new\nline', ' padded ', '\u00a0nbsp\u3000', 'ünï:日本:🙂', 'urn:x:"q"\\', 'x' * 300, 'tab\tid', 'ctl\x01id', 'a/b', '%2e%2e']
+H_META = ['quo"te', 'back\\slash', 'multi\nline\ttab', '🙂 non-BMP', '  spaces  ', 'ctl\x00\x1f', 'y' * 500]
 USERS = ["me", "Ann Onymous", "ü ser"]
 ADDRS = ["mailto:me@example.org", "https://example.org/u/1", None]
+
+
+RUST_WS = set([9, 10, 11, 12, 13, 32, 0x85, 0xA0, 0x1680, 0x2028, 0x2029, 0x202F, 0x205F, 0x3000]) | set(range(0x2000, 0x200B))
+
+
+def rust_trim(s):
+    a, b = 0, len(s)
+    while a < b and ord(s[a]) in RUST_WS:
+        a += 1
+    while b > a and ord(s[b - 1]) in RUST_WS:
+        b -= 1
+    return s[a:b]
 
 
 def sha(alg, b):
@@ -94,11 +111,12 @@ class Gen:
         self.sc.live = live
         self.known = {}         # id -> (files, dirs) of the staged view last observed
         self.two_clients = two_clients
+        self.hostile = hostile_ids
         self.weights = weights or [30, 8, 16, 14, 10, 8, 2, 16, 1, 2, 1]
         self.observe_history = observe_history
         self.n_ops = n_ops
         self.profile = profile
-        lay = rng.choice(layouts or LAYOUTS[:2] + LAYOUTS[:1] * 2 + LAYOUTS)
+        lay = rng.choice(layouts or (LAYOUTS[:3] + [LAYOUTS[6]] if hostile_ids else LAYOUTS[:2] + LAYOUTS[:1] * 2 + LAYOUTS))
         self.layout = lay
         self.spec = rng.choice(["1.0", "1.1"])
         self.staging = "ext" if two_clients else rng.choice(["default", "default", "ext"])
@@ -118,7 +136,7 @@ class Gen:
         name, cfg = self.layout
         sc.add("init", "init %s %s %s %s" % (name, hx(json.dumps(cfg)) if cfg else "-", self.spec, self.staging),
                "init %s" % self.spec, kind="setup")
-        for rel in EXT_FILES:
+        for rel in (H_FILES if self.hostile else EXT_FILES):
             self.mkfile(rel, rng.choice(CONTENTS))
 
     def mkfile(self, rel, b):
@@ -130,13 +148,19 @@ class Gen:
         rng = self.rng
         prefix = "ns:" if self.layout[0].startswith(("0006", "0007")) and rng.random() < 0.8 else ""
         oid = prefix + "obj%d" % len(self.ids)
+        if self.hostile:
+            oid = rng.choice(H_IDS) + ("" if rng.random() < 0.5 else str(len(self.ids)))
         alg = rng.choice(["sha256", "sha512", "sha512"])
         cdir = rng.choice(["content", "content", "data", "c0ntent-dir"])
+        if self.hostile:
+            cdir = rng.choice(["content", 'c"d', "c\\d", "c d ", "ünï🙂", "", "c\nd"])
         width = rng.choice([0, 0, 0, 1, 2, 3, 5])
         spec = rng.choice(["-", "-", "1.0", "1.1"])
+        created = oid
+        oid = rust_trim(oid)  # `create_object` trims the id; every later command must use the stored one
         self.ids.append(oid)
-        self.objs[oid] = dict(alg=alg)
-        self.sc.add("new", "new %s %s %s %d %s" % (hx(oid), alg, hx(cdir), width, spec), kind="mut", id=oid)
+        self.objs[oid] = dict(alg=alg, cdir=cdir)
+        self.sc.add("new", "new %s %s %s %d %s" % (hx(created), alg, hx(cdir), width, spec), kind="mut", id=oid, cdir=cdir)
         return oid
 
     def observe_staged(self, oid):
@@ -174,12 +198,12 @@ class Gen:
 
     def commit(self, oid, root=None):
         sc, rng = self.sc, self.rng
-        user = rng.choice(USERS + [None])
-        addr = rng.choice(ADDRS) if user else None
-        msg = rng.choice(["first", "update", None, "mësságe with \"quotes\""])
+        user = rng.choice(USERS + [None] + (H_META if self.hostile else []))
+        addr = rng.choice(ADDRS + (H_META[:3] if self.hostile else [])) if user else None
+        msg = rng.choice(["first", "update", None, "mësságe with \"quotes\""] + (H_META if self.hostile else []))
         created = self.ts()
         if root is None and self.layout[0] == "none":
-            root = "objects/" + oid.replace(":", "_")
+            root = "objects/o%d" % self.ids.index(oid) if self.hostile else "objects/" + oid.replace(":", "_")
         h = "commit %s %s %s %s %s %s %d" % (hx(oid), hx(root) if root else "-", hx(user) if user else "-",
                                             hx(addr) if addr else "-", hx(msg) if msg else "-", created, rng.randint(0, 1))
         idx = len(sc.steps)
@@ -198,13 +222,13 @@ class Gen:
 
     def path_pool(self, oid=None):
         files, dirs = self.known.get(oid, ([], []))
-        if files and self.rng.random() < 0.75:
+        if files and self.rng.random() < (0.9 if self.hostile else 0.75):
             pool = files * 3 + dirs * 2
             if self.rng.random() < 0.3:
                 f = self.rng.choice(files)
                 pool = [f.rsplit("/", 1)[0] + "/*" if "/" in f else "*", f[:-1] + "?", f.split("/")[0] + "*"]
             return pool
-        return NAMES + EXT_FILES
+        return (H_NAMES + H_FILES) if self.hostile else (NAMES + EXT_FILES)
 
     def rand_glob(self):
         rng = self.rng
@@ -222,8 +246,12 @@ class Gen:
         op = rng.choices(["cpx", "mvx", "cpi", "mvi", "rm", "resetp", "resetall", "commit", "purge", "upgrade", "new"],
                          self.weights)[0]
         if op == "cpx":
-            srcs = rng.sample(EXT_FILES + ["d1", "d2", "d1/sub", "missing.txt"], rng.choice([1, 1, 1, 2, 3]))
-            dst = rng.choice(["/", "", "a.txt", "new.txt", "d1", "d1/", "dir/", "d1/x.txt", "x/y/z", "e", "e/f", "bad/../p", "."])
+            if self.hostile:
+                srcs = rng.sample(H_FILES + ['ünï', 'd"q', 'd"q/in"ner', "missing"], rng.choice([1, 1, 1, 2, 3]))
+                dst = rng.choice(["/", ""] + H_NAMES + [n + "/" for n in H_NAMES[:4]])
+            else:
+                srcs = rng.sample(EXT_FILES + ["d1", "d2", "d1/sub", "missing.txt"], rng.choice([1, 1, 1, 2, 3]))
+                dst = rng.choice(["/", "", "a.txt", "new.txt", "d1", "d1/", "dir/", "d1/x.txt", "x/y/z", "e", "e/f", "bad/../p", "."])
             sc.add("cpx", "cpx %s %d %s %s" % (hx(oid), rng.randint(0, 1), hx(dst), " ".join(hx(s) for s in srcs)), kind="mut", id=oid)
         elif op == "mvx":
             # fresh files so that moved-away sources do not starve later steps
@@ -234,11 +262,11 @@ class Gen:
                 self.mkfile(rel, rng.choice(CONTENTS))
                 rels.append(rel)
             srcs = [rng.choice([r, r.split("/")[0]]) for r in rels]
-            dst = rng.choice(["/", "moved", "moved/", "d1", "a.txt"])
+            dst = rng.choice(["/", "moved", "moved/", "d1", "a.txt"] + (H_NAMES[:5] if self.hostile else []))
             sc.add("mvx", "mvx %s %s %s" % (hx(oid), hx(dst), " ".join(hx(s) for s in srcs)), kind="mut", id=oid)
         elif op in ("cpi", "mvi"):
             srcs = [rng.choice(self.path_pool(oid) + [self.rand_glob()]) for _ in range(rng.choice([1, 1, 1, 2]))]
-            dst = rng.choice(["/", "copy.txt", "d1", "d3/", "a.txt", "d1/x.txt", "deep/er/path", "e", "b.txt"] + self.path_pool(oid)[:6])
+            dst = rng.choice(["/", "copy.txt", "d1", "d3/", "a.txt", "d1/x.txt", "deep/er/path", "e", "b.txt"] + self.path_pool(oid)[:6] + (H_NAMES if self.hostile else []))
             if op == "cpi":
                 ver = rng.choice(["-", "-", "v1", "v2", "v9"])
                 sc.add("cpi", "cpi %s %s %d %s %s" % (hx(oid), ver, rng.randint(0, 1), hx(dst), " ".join(hx(s) for s in srcs)), kind="mut", id=oid)
@@ -262,7 +290,7 @@ class Gen:
             sc.add("manifest", "manifest %s" % hx(oid), kind="manifest", id=oid)
             self.observe_main(oid)
         elif op == "new":
-            sc.add("new", "new %s sha512 %s 0 -" % (hx(oid), hx("content")), kind="mut", id=oid)
+            sc.add("new", "new %s sha512 %s 0 -" % (hx(oid), hx("content")), kind="mut", id=oid, cdir="content")
         if op == "commit":
             self.commit(oid)
         self.observe_staged(oid)
